@@ -112,3 +112,10 @@ func (s PState) Apply(cmd [][]byte, got respc.Value) (ok bool, next PState, unsp
 	}
 	return true, PState{DB: ndb, Repr: ndb.Canon()}, false
 }
+
+// ApplyUnknown is the state after cmd took effect with a reply that was not observed (deterministic commands only).
+func (s PState) ApplyUnknown(cmd [][]byte) PState {
+	ndb := s.DB.Clone()
+	_ = ndb.Step(cmd, respc.Value{}, farTime) // nothing matches the zero value: the reference alternative is applied
+	return PState{DB: ndb, Repr: ndb.Canon()}
+}
